@@ -38,13 +38,40 @@ def _walk_own(fnode):
             todo.append(c)
 
 
+def _is_pymodel(filename):
+    return '/pymodels/' in filename.replace('\\', '/')
+
+
+def join_slist(interp, sep, xs):
+    """str.join over a symbolic-length sequence: interpreted from the Python model in pymodels/str_model.py
+    with the loop invariant attached to the call site, keyed 'join#k' (k-th such join of the function)."""
+    from .pymodels import str_model
+    target = None
+    for fr in reversed(interp.frame_stack):
+        if not _is_pymodel(fr.info.filename):
+            target = fr
+            break
+    if target is None:
+        return NotImplemented
+    k = target.join_counter
+    target.join_counter = k + 1
+    if (target.info.filename, target.info.qualname, 'join#%d' % k) not in interp.reg.loops_by_key:
+        return NotImplemented        # no call-site invariant: the caller falls back to the algebraic model
+    saved = target.model_site
+    target.model_site = 'join#%d' % k
+    try:
+        return interp.call(str_model.join, [sep, xs], {})
+    finally:
+        target.model_site = saved
+
+
 def find_spec(interp, frame, node):
     ordinal = loop_ordinal(frame.info, node)
-    if frame.info.filename.endswith('functools_model.py'):
+    if _is_pymodel(frame.info.filename):
         # library model: the invariant belongs to the call site (the nearest repository frame)
         for fr in reversed(interp.frame_stack):
-            if not fr.info.filename.endswith('functools_model.py'):
-                key = 'reduce#%d' % fr.reduce_site
+            if not _is_pymodel(fr.info.filename):
+                key = fr.model_site if fr.model_site is not None else 'reduce#%d' % fr.reduce_site
                 spec = interp.reg.loops_by_key.get((fr.info.filename, fr.info.qualname, key))
                 return spec, key
         return None, ordinal
@@ -108,10 +135,10 @@ def _env_of(interp, frame, extra):
     env = {'ghost': interp.st.ghost, 'trace': interp.st.trace}     # ghost state / events (unless shadowed by a local)
     if interp.collect is not None:
         env['yielded'] = interp.collect[1]
-    if frame.info.filename.endswith('functools_model.py'):
+    if _is_pymodel(frame.info.filename):
         # library model: the call site's names are visible to the invariant
         for fr in reversed(interp.frame_stack):
-            if not fr.info.filename.endswith('functools_model.py'):
+            if not _is_pymodel(fr.info.filename):
                 for d in fr.enclosing:
                     env.update(d)
                 env.update(fr.locals)
@@ -136,6 +163,8 @@ def _havoc(interp, frame, spec, modified_names, tag):
         if ty is None:
             raise Unsupported('loop %s#%s assigns %r which is not declared in modifies'
                               % (spec.qname, spec.ordinal, name))
+        if ty == 'in-place':
+            continue
         if ty == 'local':      # a loop-local temporary: dead at loop head
             frame.locals.pop(name, None)
             continue
@@ -193,6 +222,18 @@ def _havoc(interp, frame, spec, modified_names, tag):
         if name.startswith('ghost:'):
             # ghost state (interp.st.ghost) changed by models/contracts called in the body
             interp.st.ghost[name[6:]] = ty.make(interp, '%s@%s' % (name, tag))
+            continue
+        if ty == 'in-place':
+            # a mutable object (symbolic map, or instance holding one) changed by calls in the body:
+            # its contents are forgotten, its identity is kept
+            obj = frame.locals.get(name) if '.' not in name else None
+            if obj is None and '.' in name:
+                base, _, attr = name.partition('.')
+                obj = frame.locals.get(base)
+                for a in attr.split('.'):
+                    obj = interp.getattr(obj, a) if obj is not None else None
+            if obj is None or not models.havoc_mutable(interp, obj, '%s@%s' % (name, tag)):
+                raise Unsupported('modifies entry %r (in-place): nothing to havoc' % name)
             continue
         if name == 'yielded':
             continue
